@@ -228,9 +228,22 @@ class SimFS:
         path = os.fspath(path)
         if isinstance(path, bytes):
             path = path.decode('utf-8', 'surrogateescape')
+        if path == '':
+            # POSIX: the empty path names nothing (it is NOT the working directory)
+            raise FileNotFoundError(errno.ENOENT, 'No such file or directory', path)
+        raw = path
         if not path.startswith('/'):
             path = self.cwd + '/' + path
-        return os.path.normpath(path)
+        n = os.path.normpath(path)
+        if (raw.endswith('/') or raw.endswith('/.')) and n != '/':
+            # a trailing slash demands a directory
+            try:
+                r = self.resolve(n)
+            except OSError:
+                r = n
+            if r in self.files:
+                raise NotADirectoryError(errno.ENOTDIR, 'Not a directory', raw)
+        return n
 
     def inside(self, npath):
         return npath == SIM_ROOT or npath.startswith(SIM_ROOT + '/')
